@@ -79,17 +79,21 @@ def run(pid, tier):
         raise ToolError('harness lost steps')
     # canaries: corrupted observations
     cans = []
-    b = next(r for r in recs if len(r['act']['ranked']) >= 2 and r['cfg']['kind'] == 'elitism' and r['offered'][r['act']['ranked'][0] - 1] != r['offered'][r['act']['ranked'][1] - 1])
-    c = copy.deepcopy(b); c['act']['ranked'] = c['act']['ranked'][1:]; cans.append((c, 'BestNoWorse'))
-    c = copy.deepcopy(b); c['act']['ranked'] = list(reversed(c['act']['ranked'])); cans.append((c, 'Sorted'))
-    c = copy.deepcopy(b); c['act']['ranked'] = c['act']['ranked'] + [c['act']['ranked'][-1]] * 3; cans.append((c, 'SizeBound'))
-    c = copy.deepcopy(b); c['act']['ranked'] = []; c['act']['size'] = 0; cans.append((c, 'NonEmptyOnceOffered'))
-    c = copy.deepcopy(b); c['act']['ranked'] = [len(c['offered']) + 5]; cans.append((c, 'RankedOffered'))
-    c = copy.deepcopy(b); c['act']['panic'] = 'boom'; cans.append((c, 'NoPanic'))
-    g = next(r for r in recs if r['op']['name'] == 'select' and r['act']['selected'])
-    c = copy.deepcopy(g); c['act']['selected'] = []; cans.append((c, 'SelectSomething'))
-    c = copy.deepcopy(g); c['act']['selected'] = [len(c['offered']) + 1]; cans.append((c, 'SelectOffered'))
-    c = copy.deepcopy(g); c['act']['phase'] = 'initial' if c['act']['phase'] != 'initial' else 'exploration'; cans.append((c, 'AsModel'))
+    can_skip = False
+    try:
+        b = next(r for r in recs if len(r['act']['ranked']) >= 2 and r['cfg']['kind'] == 'elitism' and r['offered'][r['act']['ranked'][0] - 1] != r['offered'][r['act']['ranked'][1] - 1])
+        c = copy.deepcopy(b); c['act']['ranked'] = c['act']['ranked'][1:]; cans.append((c, 'BestNoWorse'))
+        c = copy.deepcopy(b); c['act']['ranked'] = list(reversed(c['act']['ranked'])); cans.append((c, 'Sorted'))
+        c = copy.deepcopy(b); c['act']['ranked'] = c['act']['ranked'] + [c['act']['ranked'][-1]] * 3; cans.append((c, 'SizeBound'))
+        c = copy.deepcopy(b); c['act']['ranked'] = []; c['act']['size'] = 0; cans.append((c, 'NonEmptyOnceOffered'))
+        c = copy.deepcopy(b); c['act']['ranked'] = [len(c['offered']) + 5]; cans.append((c, 'RankedOffered'))
+        c = copy.deepcopy(b); c['act']['panic'] = 'boom'; cans.append((c, 'NoPanic'))
+        g = next(r for r in recs if r['op']['name'] == 'select' and r['act']['selected'])
+        c = copy.deepcopy(g); c['act']['selected'] = []; cans.append((c, 'SelectSomething'))
+        c = copy.deepcopy(g); c['act']['selected'] = [len(c['offered']) + 1]; cans.append((c, 'SelectOffered'))
+        c = copy.deepcopy(g); c['act']['phase'] = 'initial' if c['act']['phase'] != 'initial' else 'exploration'; cans.append((c, 'AsModel'))
+    except StopIteration:
+        can_skip = True          # no record to corrupt (the code under test answered nothing of that kind): judged below
     fj = os.path.join(d, 'judge.ndjson')
     common.write_ndjson(fj, recs + [c[0] for c in cans])
     jr = common.tlc('JudgePopulation', env={'RECS': fj}, workers=1, name=pid + '-judge', timeout=6000, xmx='8g')
@@ -116,6 +120,8 @@ def run(pid, tier):
                     {'history': h, 'step': r})
     seeded = seeded_corollary(pid, tier, d, verdict)
     rc = verdict.finish()
+    if can_skip and rc == 0:
+        raise ToolError('no base record for the vacuity canaries and no violation reported')
     ops = collections.Counter(r['op']['name'] for r in recs)
     phases = collections.Counter(r['act']['phase'] for r in recs if r['cfg']['kind'] == 'rosomaxa')
     cov = {'states': mc.distinct + jr.distinct, 'transitions': mc.generated + jr.generated, 'traces_validated_against_impl': len(hs), 'evaluations': len(recs),
